@@ -216,6 +216,12 @@ type vFix struct {
 	sentTs   uint32
 	sentHash map[string]bool
 	skipNode map[[33]byte]bool
+
+	// persistent across restarts
+	backend   *vStoreBackend
+	storeOpts []graphdb.StoreOptionModifier
+	wps       *channeldb.WaitingProofStore
+	restarts  int
 }
 
 func vMsgHash(m lnwire.Message) string {
@@ -250,27 +256,31 @@ func vSign(priv *btcec.PrivateKey, m lnwire.Message) lnwire.Sig {
 
 func vIsAlias(s lnwire.ShortChannelID) bool { return s.BlockHeight >= vAliasStart }
 
-func vNewFix(t *testing.T, r *vrng) *vFix {
-	f := &vFix{t: t, skipNode: map[[33]byte]bool{}, sentHash: map[string]bool{}}
-	f.selfPriv, _ = btcec.PrivKeyFromBytes(r.bytes(32))
-	for i := range f.sentPriv {
-		f.sentPriv[i], _ = btcec.PrivKeyFromBytes(r.bytes(32))
+// start builds store object, ChannelGraph, Builder and gossiper on the
+// (persistent) backend.
+func (f *vFix) start(first bool) {
+	t := f.t
+	// A fresh store object over the same backend: all of the store's
+	// in-memory caches (reject cache, channel cache) start cold.
+	store := f.backend.open(t, f.storeOpts...)
+	var err error
+	f.db, err = graphdb.NewChannelGraph(store, graphdb.WithSyncGraphCachePopulation())
+	if err != nil {
+		t.Fatalf("channel graph: %v", err)
 	}
-	f.chain = &vChain{
-		best:   vBestHeight,
-		blocks: map[int64]*vBlock{},
-		utxo:   map[wire.OutPoint]int{},
+	if err := f.db.Start(); err != nil {
+		t.Fatalf("channel graph start: %v", err)
 	}
-	f.db = graphdb.MakeTestGraph(t)
 	f.vg = graphdb.NewVersionedGraph(f.db, lnwire.GossipVersion1)
 	ctx := context.Background()
 	selfPub := vPub33(f.selfPriv)
-	if err := f.db.SetSourceNode(ctx, models.NewV1ShellNode(selfPub)); err != nil {
-		t.Fatalf("set source: %v", err)
+	if first {
+		if err := f.db.SetSourceNode(ctx, models.NewV1ShellNode(selfPub)); err != nil {
+			t.Fatalf("set source: %v", err)
+		}
 	}
 
 	notifier := newMockNotifier()
-	var err error
 	f.builder, err = graph.NewBuilder(&graph.Config{
 		SelfNode:            selfPub,
 		Graph:               f.db,
@@ -286,12 +296,6 @@ func vNewFix(t *testing.T, r *vrng) *vFix {
 		t.Fatalf("builder: %v", err)
 	}
 
-	cdb := channeldb.OpenForTesting(t, t.TempDir())
-	wps, err := channeldb.NewWaitingProofStore(cdb)
-	if err != nil {
-		t.Fatalf("wps: %v", err)
-	}
-	f.closer = newMockScidCloser(false)
 
 	f.g = New(Config{
 		ChanSeries: newMockChannelGraphTimeSeries(
@@ -328,7 +332,7 @@ func vNewFix(t *testing.T, r *vrng) *vFix {
 		RetransmitTicker:      ticker.NewForce(time.Hour * 1000),
 		RebroadcastInterval:   vRebroadcast,
 		ProofMatureDelta:      0,
-		WaitingProofStore:     wps,
+		WaitingProofStore:     f.wps,
 		MessageStore:          newMockMessageStore(),
 		RotateTicker:          ticker.NewForce(DefaultSyncerRotationInterval),
 		HistoricalSyncTicker:  ticker.NewForce(DefaultHistoricalSyncInterval),
@@ -359,6 +363,45 @@ func vNewFix(t *testing.T, r *vrng) *vFix {
 		t.Fatalf("gossiper start: %v", err)
 	}
 	f.g.syncMgr.markGraphSynced()
+}
+
+func vNewFix(t *testing.T, r *vrng) *vFix {
+	f := &vFix{t: t, skipNode: map[[33]byte]bool{}, sentHash: map[string]bool{}}
+	f.selfPriv, _ = btcec.PrivKeyFromBytes(r.bytes(32))
+	for i := range f.sentPriv {
+		f.sentPriv[i], _ = btcec.PrivKeyFromBytes(r.bytes(32))
+	}
+	f.chain = &vChain{
+		best:   vBestHeight,
+		blocks: map[int64]*vBlock{},
+		utxo:   map[wire.OutPoint]int{},
+	}
+	f.backend = vNewBackend(t)
+	// small store caches in most cases: evictions then happen without restarts
+	switch r.intn(4) {
+	case 0:
+	case 1:
+		f.storeOpts = []graphdb.StoreOptionModifier{
+			graphdb.WithRejectCacheSize(1), graphdb.WithChannelCacheSize(1),
+		}
+	default:
+		f.storeOpts = []graphdb.StoreOptionModifier{
+			graphdb.WithRejectCacheSize(2), graphdb.WithChannelCacheSize(2),
+		}
+	}
+	cdb := channeldb.OpenForTesting(t, t.TempDir())
+	var err error
+	f.wps, err = channeldb.NewWaitingProofStore(cdb)
+	if err != nil {
+		t.Fatalf("wps: %v", err)
+	}
+	f.closer = newMockScidCloser(false)
+	f.start(true)
+	t.Cleanup(func() {
+		f.g.Stop()
+		_ = f.db.Stop()
+	})
+	ctx := context.Background()
 
 	// sentinel channel + nodes: harness plumbing used to flush the trickle
 	// batch deterministically; excluded from every snapshot.
@@ -551,6 +594,21 @@ func (f *vFix) flush() {
 		}
 		time.Sleep(300 * time.Microsecond)
 	}
+}
+
+// restart stops the gossiper and the graph, reopens the graph store on the
+// same backend (cold caches) and starts a fresh Builder and gossiper on it.
+// Everything the gossiper kept in memory (reject cache, premature updates,
+// rate limiters, ban scores) is gone; the graph is whatever was persisted.
+func (f *vFix) restart() {
+	f.flush()
+	f.g.Stop()
+	if err := f.db.Stop(); err != nil {
+		f.t.Fatalf("graph stop: %v", err)
+	}
+	f.restarts++
+	f.start(false)
+	f.flush()
 }
 
 // ---------------------------------------------------------------------------
@@ -950,6 +1008,11 @@ type vChanDef struct {
 
 type vGen struct {
 	kind  string
+	// script: messages to send first (setup phase of the "restart" kind)
+	script []func() (lnwire.Message, string)
+	// postLeft > 0: the gossiper was just restarted on a cold store; bias
+	// towards re-gossiped / duplicate / superseded messages
+	postLeft int
 	r     *vrng
 	c     *vCase
 	nk    []*btcec.PrivateKey
@@ -993,7 +1056,8 @@ func (g *vGen) setup() {
 		b := (a + 1 + r.intn(3)) % 4
 		d := vChanDef{n: g.sortedPair(a, b), b: [2]int{r.intn(4), r.intn(4)}}
 		d.envKind = vEnvKinds[r.intn(len(vEnvKinds))]
-		if i == 0 && (r.intn(4) != 0 || g.kind == "burst") {
+		if (i == 0 && (r.intn(4) != 0 || g.kind == "burst" || g.kind == "restart")) ||
+			(g.kind == "restart" && r.intn(2) == 0) {
 			d.envKind = "good"
 		}
 		d.value = []int64{1000, 500, 499, 501, 100000}[r.intn(5)]
@@ -1371,6 +1435,65 @@ func (g *vGen) corruptNA(n int) (*lnwire.NodeAnnouncement1, string) {
 	return a, tag
 }
 
+// straddleCU builds a GENUINELY signed update for (channel i, dir) whose
+// timestamp is chosen relative to BOTH stored policies of the channel: equal
+// to / around its own direction's stored timestamp and, above all, strictly
+// between the other direction's stored timestamp and its own (a superseded
+// update that only a per-direction freshness check rejects).
+func (g *vGen) straddleCU(i int, dir uint8) (*lnwire.ChannelUpdate1, string) {
+	d := g.chans[i]
+	_, p1, p2, err := g.c.f.builder.GetChannelByID(d.scid)
+	if err != nil || p1 == nil || p2 == nil {
+		return g.validCU(i, dir)
+	}
+	own, other := p1, p2
+	if dir == 1 {
+		own, other = p2, p1
+	}
+	tsOwn, tsOther := uint32(own.LastUpdate.Unix()), uint32(other.LastUpdate.Unix())
+	cands := []uint32{tsOwn, tsOwn - 1, tsOwn + 1, tsOther, tsOther + 1, tsOther - 1}
+	tag := "cu_straddle_edge"
+	if tsOwn > tsOther+1 && g.r.intn(4) != 0 {
+		span := tsOwn - tsOther - 1
+		cands = []uint32{tsOther + 1 + uint32(g.r.intn(int(span))), tsOther + 1, tsOwn - 1,
+			tsOther + 1 + span/2}
+		tag = "cu_straddle_between"
+	}
+	ts := cands[g.r.intn(len(cands))]
+	if ts == 0 {
+		ts = 1
+	}
+	return vMakeCU(d.scid, g.nk[d.n[dir]], dir, ts, uint32(g.r.intn(1000))), tag
+}
+
+// postRestart picks a message for the steps right after a restart.
+func (g *vGen) postRestart() (lnwire.Message, string) {
+	r := g.r
+	nch := len(g.chans)
+	w := r.intn(100)
+	switch {
+	case w < 14:
+		return g.validCA(r.intn(nch)), "ca_regossip"
+	case w < 30:
+		var cus []lnwire.Message
+		for _, m := range g.sent {
+			if _, ok := m.(*lnwire.ChannelUpdate1); ok {
+				cus = append(cus, m)
+			}
+		}
+		if len(cus) > 0 {
+			return vClone(cus[r.intn(len(cus))]), "cu_duplicate"
+		}
+		return g.validCA(r.intn(nch)), "ca_regossip"
+	case w < 78:
+		return g.straddleCU(r.intn(nch), uint8(r.intn(2)))
+	case w < 90:
+		return g.validCU(r.intn(nch), uint8(r.intn(2)))
+	default:
+		return g.validNA(r.intn(4))
+	}
+}
+
 // byteCorrupt flips one bit of the serialised payload of a valid message; nil
 // if the result no longer decodes.
 func (g *vGen) byteCorrupt(m lnwire.Message) lnwire.Message {
@@ -1409,7 +1532,12 @@ func (g *vGen) next(step int, kind string) (lnwire.Message, string) {
 			w = 36 + r.intn(14)
 			kind = "mixed"
 		}
-		if kind == "burst" && step == 0 {
+		if len(g.script) > 0 && tries == 0 {
+			m, tag = g.script[0]()
+			g.script = g.script[1:]
+		} else if g.postLeft > 0 && tries <= 40 && (kind == "restart" || r.intn(10) < 6) {
+			m, tag = g.postRestart()
+		} else if kind == "burst" && step == 0 {
 			m, tag = g.validCA(0), "ca_valid"
 		} else if kind == "burst" && step > 1 {
 			// rate-limiter: a long run of distinct valid updates
@@ -1527,12 +1655,47 @@ func TestVerifGossip(t *testing.T) {
 func vRunCase(t *testing.T, r *vrng, ci int) map[string]any {
 	f := vNewFix(t, r)
 	c := &vCase{f: f, ids: newVIDs(), keys: map[[33]byte]bool{}, scids: map[uint64]bool{}}
-	kind := []string{"mixed", "mixed", "mixed", "ordered", "ordered", "ordered", "ordered", "burst"}[r.intn(8)]
+	kind := []string{"mixed", "mixed", "ordered", "ordered", "ordered", "burst",
+		"restart", "restart", "restart", "restart"}[r.intn(10)]
 	g := &vGen{r: r, c: c, kind: kind}
 	g.setup()
 	nsteps := 8 + r.intn(14)
 	if kind == "burst" {
 		nsteps = 16 + r.intn(6)
+	}
+	restartAt := map[int]bool{}
+	if kind == "restart" {
+		// setup: every channel announced, both directions get policies (and
+		// a few newer ones), then restart(s) on the populated graph
+		for i := range g.chans {
+			i := i
+			g.script = append(g.script, func() (lnwire.Message, string) {
+				return g.validCA(i), "ca_valid"
+			})
+		}
+		for rep := 0; rep < 1+r.intn(2); rep++ {
+			for i := range g.chans {
+				for _, d := range []uint8{uint8(r.intn(2)), 2} {
+					i, d := i, d
+					g.script = append(g.script, func() (lnwire.Message, string) {
+						if d == 2 {
+							// the direction not yet served in this round
+							if g.cuTs[[2]int{i, 0}] <= g.cuTs[[2]int{i, 1}] {
+								return g.validCU(i, 0)
+							}
+							return g.validCU(i, 1)
+						}
+						return g.validCU(i, d)
+					})
+				}
+			}
+		}
+		first := len(g.script)
+		nsteps = first + 8 + r.intn(8)
+		restartAt[first] = true
+		if r.intn(2) == 0 {
+			restartAt[first+3+r.intn(4)] = true
+		}
 	}
 	peers := []*mockPeer{
 		{g.nk[0].PubKey(), nil, nil, atomic.Bool{}},
@@ -1551,7 +1714,20 @@ func vRunCase(t *testing.T, r *vrng, ci int) map[string]any {
 	prev := c.snapshot()
 	prevJSON := fmt.Sprint(prev)
 	for si := 0; si < nsteps; si++ {
+		restarted := false
+		if restartAt[si] || (kind != "restart" && si >= 3 && r.intn(14) == 0) {
+			// lnd restarts: cold store caches, empty gossiper memory; parked
+			// updates are gone with the old gossiper
+			f.restart()
+			restarted = true
+			pend = nil
+			g.pending = map[uint64]map[uint8]string{}
+			g.postLeft = 6
+		}
 		m, tag := g.next(si, kind)
+		if g.postLeft > 0 {
+			g.postLeft--
+		}
 		g.sent = append(g.sent, m)
 		pi := r.intn(4)
 		if pi > 2 {
@@ -1622,7 +1798,7 @@ func vRunCase(t *testing.T, r *vrng, ci int) map[string]any {
 		snap := c.snapshot()
 		sj := fmt.Sprint(snap)
 		st := map[string]any{
-			"i": si, "tag": tag, "peer": c.kid(vPub33FromPub(peer.pk)), "now": now,
+			"i": si, "restart": restarted, "tag": tag, "peer": c.kid(vPub33FromPub(peer.pk)), "now": now,
 			"m": desc, "orc": orc, "res": verdict, "resolved": resolved,
 			"ban": []uint64{f.banScore(vPub33FromPub(peers[0].pk)), f.banScore(vPub33FromPub(peers[1].pk)),
 				f.banScore(vPub33FromPub(peers[2].pk))},
@@ -1656,7 +1832,7 @@ func vRunCase(t *testing.T, r *vrng, ci int) map[string]any {
 		"best": vBestHeight, "alias_start": vAliasStart,
 		"rebroadcast": int64(vRebroadcast / time.Second),
 		"prune": int64(vPruneExpiry / time.Second),
-		"burst": DefaultMaxChannelUpdateBurst,
+		"burst": DefaultMaxChannelUpdateBurst, "backend": vBackendName, "restarts": f.restarts,
 		"steps": steps, "bcast": bc, "still_pending": left,
 	}
 }
